@@ -250,6 +250,11 @@ class Problem(  # type: ignore[misc]
 
     def clone(self):
         new_p = Problem(self._name, self._env)
+        self._clone_problem_to(new_p)
+        return new_p
+
+    def _clone_problem_to(self, new_p: "Problem"):
+        """Copies everything a `Problem` stores into `new_p`; used by the `clone` of `Problem` and of its subclasses."""
         UserTypesSetMixin._clone_to(self, new_p)
         ObjectsSetMixin._clone_to(self, new_p)
         FluentsSetMixin._clone_to(self, new_p)
@@ -268,10 +273,12 @@ class Problem(  # type: ignore[misc]
         new_p._fluents_assigned = {
             t: d.copy() for t, d in self._fluents_assigned.items()
         }
+        new_p._fluents_inc_dec = {
+            t: s.copy() for t, s in self._fluents_inc_dec.items()
+        }
 
         # last as it requires actions to be cloned already
         MetricsMixin._clone_to(self, new_p, new_actions=new_p)
-        return new_p
 
     def has_name(self, name: str) -> bool:
         """
